@@ -74,9 +74,9 @@ def eT(i):
 
 class C17:
     id = 'C17'
-    props_files = ['SmoothProps/C17.lean']
-    props_module = 'SmoothProps.C17'
-    lean_targets = ['SmoothProps.C17']
+    props_files = ['SmoothProps/C17.lean', 'SmoothProps/SrcTieConv.lean']
+    props_module = 'SmoothProps.C17All'
+    lean_targets = ['SmoothProps.C17All']
     rule = ('harness/conv.cpp: SO2 coefficient pairs over 34 circle strata (both signed zeros at qw>0 and qw<0, the four '
             'quadrant points with signed zeros, denorm_min/min/epsilon neighbours of the atan2 cuts, sin/cos(+-M_PI), |yaw| '
             'within 1e-12..1e-2 of 0, pi/2, pi, generic) for angle/angle_cw/angle_ccw/u1/lifts/isometries/lift homomorphism; '
